@@ -6,6 +6,7 @@ From Coq Require Import List ZArith Reals Lra Bool.
 Import ListNotations.
 Require Import PGM.Base.Num PGM.Base.Alg PGM.Model.Domain PGM.Model.Dataset PGM.Model.Ledger PGM.Proofs.LedgerP PGM.Proofs.CertP PGM.Proofs.SensP.
 Require Import PGM.Model.Select PGM.Proofs.GibbsP PGM.Proofs.DpP PGM.Proofs.DpLinkP.
+Require Import PGM.Gen.Budget_gen PGM.Proofs.BudgetGenP.
 Open Scope R_scope.
 
 Theorem C05_mst_spends_rho rho k1 rm1 k2 : 0 < rho -> (0 < k1)%nat -> (0 < rm1)%nat -> (0 < k2)%nat ->
@@ -73,6 +74,39 @@ Print Assumptions C05_l1_score_sensitivity.
 Theorem C05_weighted_score_sensitivity n x x' m w b : Rabs (w * (l1 n x' m - b) - w * (l1 n x m - b)) <= Rabs w * l1 n x' x.
 Proof. exact (weighted_score_sensitivity n x x' m w b). Qed.
 Print Assumptions C05_weighted_score_sensitivity.
+
+(* ---- THE SAME LEDGERS ON THE ARITHMETIC GENERATED FROM THE SOURCE (Gen/Budget_gen.v, regenerated on every run) ----
+   translator/py2gallina_budget.py turns every assignment to a budget variable, every scale / epsilon / sensitivity argument of a noise or
+   selection primitive and every budget hand-over between functions in mst.py, aim.py, mwem+pgm.py and adaptive_grid.py into a Gallina
+   formula.  The skeletons *_src below are built from those formulas only (control flow by hand); they equal the hand models, so the
+   ledger theorems hold for the numbers the source contains now: changing 0.9 to 0.8, 8 to 4, rho/3 to rho/2 ... breaks these proofs. *)
+Theorem C05_src_mst_spends_rho rho k1 rm1 k2 : 0 < rho -> (0 < k1)%nat -> (0 < rm1)%nat -> (0 < k2)%nat -> total (mst_events_src rho k1 rm1 k2) = rho.
+Proof. exact (mst_src_spends_rho rho k1 rm1 k2). Qed.
+Print Assumptions C05_src_mst_spends_rho.
+Theorem C05_src_adagrid_spends_rho_default_split rho n1 rm1 n3 : 0 < rho -> (0 < n1)%nat -> (0 < rm1)%nat -> (0 < n3)%nat ->
+  total (adagrid_events_src (adagrid_rho_step_1_1 RNum rho) (adagrid_rho_step_2_1 RNum rho) (adagrid_rho_step_3_1 RNum rho) n1 rm1 n3) = rho.
+Proof. exact (adagrid_src_spends_rho_default rho n1 rm1 n3). Qed.
+Print Assumptions C05_src_adagrid_spends_rho_default_split.
+Theorem C05_src_adagrid_spends_rho_custom_split rho f1 f2 f3 n1 rm1 n3 : 0 < rho -> 0 < f1 -> 0 < f2 -> 0 < f3 -> f1 + f2 + f3 = 1 ->
+  (0 < n1)%nat -> (0 < rm1)%nat -> (0 < n3)%nat ->
+  total (adagrid_events_src (adagrid_rho_step_1_2 RNum rho f1) (adagrid_rho_step_2_2 RNum rho f2) (adagrid_rho_step_3_2 RNum rho f3) n1 rm1 n3) = rho.
+Proof. exact (adagrid_src_spends_rho_split rho f1 f2 f3 n1 rm1 n3). Qed.
+Print Assumptions C05_src_adagrid_spends_rho_custom_split.
+Theorem C05_src_mwem_spends_rho rho alpha rounds bounded : 0 < rho -> 0 < alpha < 1 -> (0 < rounds)%nat ->
+  total (mwem_events_src rho alpha rounds bounded true) = rho.
+Proof. exact (mwem_src_spends_rho rho alpha rounds bounded). Qed.
+Print Assumptions C05_src_mwem_spends_rho.
+Theorem C05_src_mwem_laplace_spends_eps eps alpha rounds bounded : 0 < eps -> 0 < alpha < 1 -> (0 < rounds)%nat ->
+  ptotal RNum (mwem_lap_events_src eps alpha rounds bounded) = eps.
+Proof. exact (mwem_lap_src_spends_eps eps alpha rounds bounded). Qed.
+Print Assumptions C05_src_mwem_laplace_spends_eps.
+Theorem C05_src_aim_never_overspends rho rounds d decisions : 0 < rho -> (0 < rounds)%nat -> 9 / 10 * INR d < INR rounds ->
+  let s := fst (aim_run_src rho (aim_init_src rho rounds d) decisions) in a_used s <= rho /\ (a_done s = true -> a_used s = rho).
+Proof. exact (aim_src_never_overspends rho rounds d decisions). Qed.
+Print Assumptions C05_src_aim_never_overspends.
+Theorem C05_src_aim_overspend_refuted rho : 0 < rho -> a_used (aim_init_src rho 1 3) = 27 / 10 * rho.
+Proof. exact (aim_src_overspend rho). Qed.
+Print Assumptions C05_src_aim_overspend_refuted.
 
 (* WHY THE CHARGES ARE WHAT THEY ARE.  (1) A private selection: the probabilities the code hands to choice() are the exponential-mechanism
    probabilities (C20), and when every score moves by at most the sensitivity the selection was given, every probability moves by a
